@@ -279,6 +279,14 @@ def inplace_binop(ex, op, cur, rhs):
         # result keeps cur's shape (numpy would raise if broadcasting enlarged it)
         set_region(ex, cur, lambda idx: True, e, i)
         return cur
+    if isinstance(cur, Vec) and cur.kind == "array":
+        # a numpy vector is updated IN PLACE: every alias of it sees the new contents
+        res = binop(ex, op, cur, rhs)
+        ri = res.items if isinstance(res, Vec) else [as_ndarray(res).elem((i,)) for i in range(len(cur.items))]
+        if len(ri) != len(cur.items):
+            raise SymRaise("ValueError", "non-broadcastable output operand")
+        cur.items[:] = ri
+        return cur
     if isinstance(cur, list) and op == "Add":
         items = ex.as_iterable(rhs)
         if isinstance(items, list):
